@@ -375,39 +375,45 @@ def keep_only(root, keep):
 
 
 def shrink_and_name(ck, binary, nproc, tier, confirmed):
-    """confirmed: [(w, i, cfg, cls, codes)] -> yields (w, i, cfg, cls, codes, key, shrunk xml, features)"""
+    """confirmed: [(w, i, cfg, cls, codes)] -> [(w, i, cfg, cls, codes, key, shrunk xml, features, violations)]
+    One representative per (schema, class, violation kinds) is minimised with ddmin through the driver; the groups are
+    minimised concurrently (one driver process each)."""
     from .. import shrink
-    cache = {}
+    from concurrent.futures import ThreadPoolExecutor
+    import threading
     groups = collections.OrderedDict()
     for m in confirmed:
         w, i, cfg, cls, ecodes = m
         x = w['instances'][i]
-        groups.setdefault((w['si'], cls, vkey(x[4])), []).append(m)
-    out = []
+        groups.setdefault((w['si'], cls, vkey(x[4]), tuple(ecodes)), []).append(m)
+    gens = {}
+    glock = threading.Lock()
     counter = [0]
-    for (si, cls, vk), members in groups.items():
+
+    def one(item):
+        (si, cls, vk, _codes), members = item
         w, i, cfg, cls, ecodes = members[0]
-        if si not in cache:
-            cache.clear()
-            cache[si] = gen(ck.seed, si, tier)
-        s, meta, chk, insts = cache[si]
+        with glock:
+            if si not in gens:
+                gens[si] = gen(ck.seed, si, tier)
+            s, meta, _chk, insts = gens[si]
+        chk = ic.Checker(s)           # own checker per thread
         el0 = insts[i][3]
         viol0 = insts[i][4]
         kinds0 = set(v[0] for v in viol0)
         units = list(range(len(removable(el0))))
 
         def test_batch(cands):
-            cases, ok_ref = [], []
+            cases, res = [], [False] * len(cands)
             for n, keep in enumerate(cands):
                 c = keep_only(el0, set(keep))
                 v, sk = chk.check(c)
-                good = v is not None and not sk and bool(v) == bool(viol0) and set(x[0] for x in v) <= kinds0
-                ok_ref.append(good)
-                if good:
-                    counter[0] += 1
-                    cases.append((n, mk_case('sh%d' % counter[0], cfg, w['ents'], wrap_single(w['tns'], xg.ser(c)))))
-            recs = core.run_cases(binary, [c for _, c in cases], tag='c10s', shards=nproc) if cases else {}
-            res = [False] * len(cands)
+                if v is not None and not sk and bool(v) == bool(viol0) and set(x[0] for x in v) <= kinds0:
+                    with glock:
+                        counter[0] += 1
+                        cid = 'sh%d' % counter[0]
+                    cases.append((n, mk_case(cid, cfg, w['ents'], wrap_single(w['tns'], xg.ser(c)))))
+            recs = core.run_cases(binary, [c for _, c in cases], tag='c10s%d-' % counter[0], shards=1) if cases else {}
             for n, c in cases:
                 rec = recs.get(c.id)
                 if rec is not None and rec.complete and not rec.crash and not rec.hang and rec.steps():
@@ -415,24 +421,25 @@ def shrink_and_name(ck, binary, nproc, tier, confirmed):
                     # same class and (for errors) the same set of codes: shrinking must not drift to another defect
                     res[n] = classify(st_) == cls and (cls != 'E' or sorted(set(e[2] for e in st_.errs if e[0] == 'E')) == list(ecodes))
             return res
-        keep = shrink.ddmin(units, test_batch, max_rounds=14) if len(units) > 1 else units
-        # ddmin may return the input unchanged; make sure the result still disagrees (else keep the original)
+        keep = shrink.ddmin(units, test_batch, max_rounds=12) if len(units) > 1 else units
         fin = keep_only(el0, set(keep))
-        if not test_batch([keep])[0]:
+        if len(keep) != len(units) and not test_batch([keep])[0]:
             fin = el0
         v, sk = chk.check(fin)
         feats = sorted(chk.feats)
         primary = [f for f in feats if f.startswith(('nested-scopes-', 'field-multiple-match:', 'keyref:no-key-table', 'propagation:'))]
         feats = primary or feats
-        sel = sorted(set(re.sub(r'[A-Za-z0-9_]+:(?!\*)|[a-z]+(?![a-z*])', 'n', c_.selector).replace(' ', '') for d_ in s.elems.values() for c_ in d_.ics))
         if cls == 'V':
             key = 'C10:accepted-invalid:%s:%s' % (vkey(v), '+'.join(feats) or 'plain')
         elif cls == 'E':
             key = 'C10:rejected-valid:%s:code%s' % ('+'.join(feats) or 'plain', '+'.join(map(str, ecodes[:2])))
         else:
             key = 'C10:fatal:%s:%s' % (vkey(v), '+'.join(feats) or 'plain')
-        for m in members:
-            out.append(m + (key, xg.ser(fin), feats, v))
+        return [m + (key, xg.ser(fin), feats, v) for m in members]
+    out = []
+    with ThreadPoolExecutor(max(2, nproc)) as ex:
+        for r_ in ex.map(one, list(groups.items())):
+            out += r_
     return out
 
 
